@@ -736,4 +736,140 @@ theorem leafGood_comparison (F : FloatLib) (a : Str) (op : Cmp) (cv : CV)
     exact ⟨(hfront rest).2.2.2.1, (hfront rest).2.2.2.2.1, (hfront rest).2.2.2.2.2.1⟩
   · intro _ rest _; rw [List.append_assoc]; exact (hfront rest).2.2.2.2.2.2.1
 
+
+/-! ### ranges -/
+
+theorem toSep : " TO ".toList = [' ', 'T', 'O', ' '] := by decide
+
+def rvChar (c : Char) : Bool := !isWs c && c != ']' && c != '}'
+
+def rvStop (x : Str) : Bool :=
+  match x with
+  | [] => true
+  | c :: _ => isWs c || c == ']' || c == '}'
+
+theorem rangeValueChars_cons (c : Char) (r : Str) :
+    rangeValueChars (c :: r) =
+      if isWs c || c == ']' || c == '}' then ([], c :: r)
+      else ((c :: (rangeValueChars r).1), (rangeValueChars r).2) := by
+  rw [rangeValueChars]
+
+theorem rangeValueChars_append : (p x : Str) → p.all rvChar = true → rvStop x = true →
+    rangeValueChars (p ++ x) = (p, x)
+  | [], x, _, hx => by
+    cases x with
+    | nil => rfl
+    | cons c r =>
+      simp only [rvStop] at hx
+      rw [List.nil_append, rangeValueChars_cons, hx]; rfl
+  | c :: p, x, hp, hx => by
+    simp only [List.all_cons, Bool.and_eq_true] at hp
+    have hc : (isWs c || c == ']' || c == '}') = false := by
+      have := hp.1
+      simp only [rvChar, Bool.and_eq_true, Bool.not_eq_true', bne_iff_ne, ne_eq] at this
+      simp [this.1.1, this.1.2, this.2]
+    rw [List.cons_append, rangeValueChars_cons, hc, rangeValueChars_append p x hp.2 hx]
+    rfl
+
+theorem rangeValue_append (p x : Str) (hne : p ≠ []) (hp : p.all rvChar = true) (hx : rvStop x = true) :
+    rangeValue (p ++ x) = some (p, x) := by
+  unfold rangeValue
+  rw [rangeValueChars_append p x hp hx]
+  cases p with
+  | nil => exact absurd rfl hne
+  | cons c r => rfl
+
+theorem rangeBound_parts (F : FloatLib) (cv : CV) (h : rangeBoundOK F cv = true) :
+    cv.toLucene F ≠ [] ∧ (cv.toLucene F).all rvChar = true ∧ CV.ofText F (cv.toLucene F) = cv := by
+  simp only [rangeBoundOK, Bool.and_eq_true, Bool.not_eq_true', decide_eq_true_eq] at h
+  refine ⟨?_, ?_, h.2⟩
+  · intro e; rw [e] at h; simp at h
+  · exact h.1.2
+
+theorem rangeValueOK_bound (F : FloatLib) (cv : CV) (h : rangeValueOK F cv = true) : rangeBoundOK F cv = true := by
+  cases cv with
+  | unbounded => rfl
+  | str s => simp only [rangeValueOK, Bool.and_eq_true] at h; exact h.2
+  | int i => exact h
+  | float b => exact h
+
+theorem skipWs_rv (p x : Str) (hne : p ≠ []) (hp : p.all rvChar = true) : skipWs (p ++ x) = p ++ x := by
+  cases p with
+  | nil => exact absurd rfl hne
+  | cons c r =>
+    simp only [List.all_cons, Bool.and_eq_true, rvChar, Bool.not_eq_true'] at hp
+    exact skipWs_head c _ hp.1.1.1
+
+/-- the `range` rule on a printed range -/
+theorem range_printed (lsq : Bool) (v1 v2 rest : Str) (h1 : v1 ≠ []) (h1c : v1.all rvChar = true)
+    (h2 : v2 ≠ []) (h2c : v2.all rvChar = true) :
+    range ((if lsq then '[' else '{') :: (v1 ++ (' ' :: 'T' :: 'O' :: ' ' :: (v2 ++ (if lsq then ']' else '}') :: rest)))) =
+      some (.range lsq v1 v2 lsq, rest) := by
+  cases lsq with
+  | true =>
+    simp only [if_true]
+    have e1 : skipWs (v1 ++ (' ' :: 'T' :: 'O' :: ' ' :: (v2 ++ ']' :: rest))) = v1 ++ (' ' :: 'T' :: 'O' :: ' ' :: (v2 ++ ']' :: rest)) :=
+      skipWs_rv v1 _ h1 h1c
+    have e2 : rangeValue (v1 ++ (' ' :: 'T' :: 'O' :: ' ' :: (v2 ++ ']' :: rest))) = some (v1, ' ' :: 'T' :: 'O' :: ' ' :: (v2 ++ ']' :: rest)) :=
+      rangeValue_append v1 _ h1 h1c rfl
+    have e3 : stripPrefix ['T', 'O'] (skipWs (' ' :: 'T' :: 'O' :: ' ' :: (v2 ++ ']' :: rest))) = some (' ' :: (v2 ++ ']' :: rest)) := rfl
+    have e4 : skipWs (' ' :: (v2 ++ ']' :: rest)) = v2 ++ ']' :: rest := by
+      rw [show skipWs (' ' :: (v2 ++ ']' :: rest)) = skipWs (v2 ++ ']' :: rest) from rfl]
+      exact skipWs_rv v2 _ h2 h2c
+    have e5 : rangeValue (v2 ++ ']' :: rest) = some (v2, ']' :: rest) := rangeValue_append v2 _ h2 h2c rfl
+    have e6 : skipWs (']' :: rest) = ']' :: rest := rfl
+    unfold range
+    simp only [if_true, e1, e2, e3, e4, e5, e6]
+  | false =>
+    simp only [Bool.false_eq_true, if_false]
+    have e1 : skipWs (v1 ++ (' ' :: 'T' :: 'O' :: ' ' :: (v2 ++ '}' :: rest))) = v1 ++ (' ' :: 'T' :: 'O' :: ' ' :: (v2 ++ '}' :: rest)) :=
+      skipWs_rv v1 _ h1 h1c
+    have e2 : rangeValue (v1 ++ (' ' :: 'T' :: 'O' :: ' ' :: (v2 ++ '}' :: rest))) = some (v1, ' ' :: 'T' :: 'O' :: ' ' :: (v2 ++ '}' :: rest)) :=
+      rangeValue_append v1 _ h1 h1c rfl
+    have e3 : stripPrefix ['T', 'O'] (skipWs (' ' :: 'T' :: 'O' :: ' ' :: (v2 ++ '}' :: rest))) = some (' ' :: (v2 ++ '}' :: rest)) := rfl
+    have e4 : skipWs (' ' :: (v2 ++ '}' :: rest)) = v2 ++ '}' :: rest := by
+      rw [show skipWs (' ' :: (v2 ++ '}' :: rest)) = skipWs (v2 ++ '}' :: rest) from rfl]
+      exact skipWs_rv v2 _ h2 h2c
+    have e5 : rangeValue (v2 ++ '}' :: rest) = some (v2, '}' :: rest) := rangeValue_append v2 _ h2 h2c rfl
+    have e6 : skipWs ('}' :: rest) = '}' :: rest := rfl
+    unfold range
+    simp only [Char.reduceEq, if_false, if_true, e1, e2, e3, e4, e5, e6]
+
+/-- text starting with a range bracket: only the `range` alternative applies -/
+theorem range_front (lsq : Bool) (x : Str) :
+    let s := (if lsq then '[' else '{') :: x
+    starValue s = none ∧ phraseValue s = none ∧ prefixValue s = none ∧ comparison s = none ∧
+    matchall s = none ∧ field s = none ∧ multiterm s = none ∧ modifiers s = none ∧ skipWs s = s := by
+  cases lsq <;> exact ⟨rfl, rfl, rfl, rfl, rfl, rfl, rfl, rfl, rfl⟩
+
+theorem leafGood_range (F : FloatLib) (a : Str) (lo : CV) (li : Bool) (hi : CV) (ui : Bool)
+    (h : NFLeaf F (.range a lo li hi ui) = true) : LeafGood F (.range a lo li hi ui) := by
+  simp only [NFLeaf, Bool.and_eq_true, beq_iff_eq] at h
+  obtain ⟨⟨⟨ha, hlu⟩, hlo⟩, hhi⟩ := h
+  subst hlu
+  obtain ⟨l1, l2, l3⟩ := rangeBound_parts F lo (rangeValueOK_bound F lo hlo)
+  obtain ⟨u1, u2, u3⟩ := rangeBound_parts F hi (rangeValueOK_bound F hi hhi)
+  let body : Str := (if li then '[' else '{') ::
+    (lo.toLucene F ++ (' ' :: 'T' :: 'O' :: ' ' :: (hi.toLucene F ++ [if li then ']' else '}'])))
+  have hbody : ∀ x, body ++ x = (if li then '[' else '{') ::
+      (lo.toLucene F ++ (' ' :: 'T' :: 'O' :: ' ' :: (hi.toLucene F ++ (if li then ']' else '}') :: x))) := by
+    intro x; simp [body]
+  have hL : (Leaf.range a lo li hi li).toLucene F = attrPrefix a ++ body := by
+    show attrPrefix a ++ [if li then '[' else '{'] ++ lo.toLucene F ++ " TO ".toList ++ hi.toLucene F ++
+      [if li then ']' else '}'] = _
+    rw [toSep]
+    simp [body]
+  refine leafGood_attr F _ a body (.range li (lo.toLucene F) (hi.toLucene F) li) hL ha ?_ ?_ (by simp [body]) ?_ ?_ ?_
+  · intro rest _
+    rw [hbody]
+    have hf := range_front li (lo.toLucene F ++ (' ' :: 'T' :: 'O' :: ' ' :: (hi.toLucene F ++ (if li then ']' else '}') :: rest)))
+    simp only at hf
+    obtain ⟨f1, f2, f3, f4, _⟩ := hf
+    simp only [value, f1, f2, f3, f4, alt_none, range_printed li _ _ rest l1 l2 u1 u2, alt_some]
+  · intro x; rw [hbody]; exact (range_front li _).2.2.2.2.2.2.2.2
+  · intro _ rest _; rw [hbody]
+    exact ⟨(range_front li _).2.2.2.2.1, (range_front li _).2.2.2.2.2.1, (range_front li _).2.2.2.2.2.2.1⟩
+  · intro _ rest _; rw [hbody]; exact (range_front li _).2.2.2.2.2.2.2.1
+  · simp [visitValue, unescape_attr a ha, l3, u3]
+
 end Search
